@@ -110,6 +110,9 @@ class Shape:
         return Shape(ell, tuple(reversed(dims)))
 
 
+MEMOISING_DECORATORS = frozenset(('lru_cache', 'cache', 'cached_property', 'memoize', 'memoized'))
+
+
 class Obj:
     """abstract instance of repo classes with per-field abstract values"""
     __slots__ = ('classes', 'fields', 'mutable', 'oid', 'origin', 'variants')
@@ -1352,6 +1355,15 @@ class Evaluator:
         child = self.run(fn, bind, ctx, closure, t)
         if not child.done:
             return unknown_result(pos, kw, dstar), child, bind
+        if fn.decorators & MEMOISING_DECORATORS and 'cached_property' not in fn.decorators:
+            # one result object is handed to every call with equal arguments: it is storage shared between calls, like a module-level object
+            tag = frozenset([('global', fn.mod.name, f'<results memoised by {fn.qual.split("::")[-1]}>')])
+
+            def shared(v):
+                if not isinstance(v, AV):
+                    return v
+                return v.replace(alias=v.alias | tag, tup=tuple(shared(x) for x in v.tup) if v.tup is not None else None)
+            return shared(child.result), child, bind
         return child.result, child, bind
 
     def construct(self, cls, pos, kw, dstar, ctx, t):
